@@ -273,7 +273,7 @@ class Check:
             return True
         path = os.path.join(self.replay_dir, "v%03d.json" % self.n_viol)
         replay = dict(replay)
-        replay.update({"property": self.pid, "key": key, "what": what, "repo": REPO,
+        replay.update({"property": self.pid, "key": key, "what": what, "repo": REPO, "seed": self.seed, "tier": self.tier,
                        "replay_cmd": "./check %s --replay %s" % (self.pid, path)})
         with open(path, "w") as f:
             json.dump(replay, f, indent=1, default=str)
